@@ -282,13 +282,17 @@ class UTPM(Ring, RawAlgorithmsMixIn):
         # print 'xbar =', xbar
         # print 'ybar =', ybar
         # a constant array on the right hand side has no adjoint (xbar is None)
+        # clear the adjoint of the overwritten entries first and accumulate into
+        # xbar afterwards: x may be (a view of) y itself, in which case xbar
+        # shares memory with ybar
+        tmp = ybar[sl].copy()
+        ybar[sl].data[...] = 0.
         if isinstance(xbar, UTPM):
             # x may have been broadcast into y[sl]: sum over the broadcast axes
-            xbar2, tmp2 = cls.broadcast(xbar, ybar[sl])
+            xbar2, tmp2 = cls.broadcast(xbar, tmp)
             workaround_strides_function(xbar2, tmp2, operator.iadd)
         elif xbar is not None:
-            xbar += ybar[sl]
-        ybar[sl].data[...] = 0.
+            xbar += tmp
         # print 'funcargs=',funcargs
         # print y[funcargs[0]]
 
